@@ -58,6 +58,7 @@ def run(ctx):
     rule_wrap(ctx, F)
     rule_deleg(ctx, F)
     rule_use(ctx, F)
+    rule_port(ctx, F)
 
 
 # ---------------------------------------------------------------------------
@@ -505,16 +506,19 @@ def raw_ok(p):
     if p.endswith(" as core::cmp::Ord>::cmp") or re.search(r" as core::cmp::PartialOrd(<.*>)?>::partial_cmp$", p):
         return True
     for pre in ("base::serial::Serial::", "<base::serial::Serial as ", "rdata::dnssec::Timestamp::",
-                "<rdata::dnssec::Timestamp as "):
+                "<rdata::dnssec::Timestamp as ", "new::base::serial::Serial::", "<new::base::serial::Serial as ",
+                "new::rdata::dnssec::rrsig::Timestamp::", "<new::rdata::dnssec::rrsig::Timestamp as "):
         if p.startswith(pre):
             return True
     return False
 
 
-SERIAL_TYS = ("base::serial::Serial", "rdata::dnssec::Timestamp")
+SERIAL_TYS = ("base::serial::Serial", "rdata::dnssec::Timestamp", "new::base::serial::Serial", "new::rdata::dnssec::rrsig::Timestamp")
 RAW_SOURCES = re.compile(
     r"^(base::serial::Serial::into_int|rdata::dnssec::Timestamp::into_int|"
-    r"<u32 as core::convert::From<base::serial::Serial>>::from)$")
+    r"<u32 as core::convert::From<base::serial::Serial>>::from|"
+    r"new::base::serial::Serial::get|<u32 as core::convert::From<new::base::serial::Serial>>::from|"
+    r"new::rdata::dnssec::rrsig::Timestamp::into_int)$")
 CANON_CMP = re.compile(r"base::cmp::CanonicalOrd::canonical_(lt|le|gt|ge|cmp)$")
 
 
@@ -524,8 +528,6 @@ def rule_use(ctx, F):
     nsites = 0
     seen = {}
     for p, b in F.bodies.items():
-        if p.startswith("new::"):
-            continue
         # 1. canonical_* comparisons whose Self type is Serial/Timestamp
         for bb, t in b.calls():
             fn = t["fn"] or ""
@@ -560,6 +562,26 @@ def rule_use(ctx, F):
                        % ("subtraction (panics or wraps when the minuend is 'older')" if op.startswith("Sub") else "ordering",
                           " vs ".join(show(x) for x in (ta, tb))), b.where(bi))
             t = b.blocks[bi]["t"]
+            # 3. arithmetic that does not wrap (saturating / checked / plain `+`) on the raw integer of a serial: sequence-space
+            #    arithmetic is modulo 2^32 (Serial::add, wrapping_add / wrapping_sub)
+            if t["k"] == "call" and re.search(r"<impl u32>::(saturating_add|saturating_sub|checked_add|checked_sub|abs_diff|max|min|pow)$", t["fn"] or ""):
+                args = [deep_strip(b.term_of_operand(a)) for a in t["args"]]
+                if any(_raw_serial(x) for x in args):
+                    nsites += 1
+                    nm = t["fn"].split("::")[-1]
+                    ctx.ob(R, b, "%s on raw serial integer#%d" % (nm, _ord(seen, p, nm)), raw_ok(p),
+                           "u32::%s applied to the raw value of a serial number / signature time (%s): it does not wrap at 2^32, so "
+                           "the result is wrong (stuck, clamped or None) exactly when the serial is about to wrap; use Serial::add or "
+                           "wrapping arithmetic" % (nm, " , ".join(show(x)[:80] for x in args)), b.where(bi))
+            for st in b.blocks[bi]["s"]:
+                if st[0] == "=" and st[2][0] == "bin" and st[2][1] in ("Add", "AddWithOverflow", "Mul", "MulWithOverflow"):
+                    ta, tb_ = deep_strip(b.term_of_operand(st[2][2])), deep_strip(b.term_of_operand(st[2][3]))
+                    if _raw_serial(ta) or _raw_serial(tb_):
+                        nsites += 1
+                        opn = st[2][1].replace("WithOverflow", "")
+                        ctx.ob(R, b, "%s on raw serial integer#%d" % (opn, _ord(seen, p, opn)), raw_ok(p),
+                               "plain `%s` on the raw value of a serial number / signature time: panics (debug) or is wrong at the "
+                               "2^32 wrap; use Serial::add or wrapping arithmetic" % ("+" if opn == "Add" else "*"), b.where(bi))
             if t["k"] == "call" and (t["fn"] or "").endswith("Ord::cmp") and t["targs"][:1] == ["u32"]:
                 args = [deep_strip(b.term_of_operand(a)) for a in t["args"]]
                 if any(_raw_serial(x) for x in args):
@@ -580,3 +602,57 @@ def _raw_serial(t):
         if s[0] == "call" and s[1] and RAW_SOURCES.match(s[1]):
             return True
     return False
+
+
+PORTED = [
+    # (established function, its copy in the new codec, what it computes)
+    (r"^rdata::dnssec::Timestamp::to_system_time$", r"^new::rdata::dnssec::rrsig::Timestamp::to_system_time$",
+     "the SystemTime nearest to a reference time for a 32-bit signature time"),
+]
+
+
+def rule_port(ctx, F):
+    """The new codec carries copies of the established sequence-space conversions.  A copy decides like the original:
+    the same conditions lead to the same values (decision tables extracted from the MIR of both -- conditions in every
+    equivalent spelling, calls by name, constants by value -- and compared as sets)."""
+    from rulelib import decision_table
+    R = "C17.port"
+    ctx.floor(R, 1)
+    for old_rx, new_rx, what in PORTED:
+        ob_, nb_ = F.one_body(old_rx), F.one_body(new_rx)
+        if not ctx.anchor(R, "established and new-codec copy of " + what, ob_ is not None and nb_ is not None):
+            continue
+        ta, tb = decision_table(ob_, F), decision_table(nb_, F)
+        if not ctx.anchor(R, "decision tables of both copies", len(ta) >= 3 and len(tb) >= 3, nb_.where()):
+            continue
+        only_new = sorted(tb - ta, key=str)
+        only_old = sorted(ta - tb, key=str)
+
+        def brief(row):
+            conds = sorted("%s=%s" % (_brief(s), v) for s, v in row[0] if v is True)
+            return "%s when %s" % (_brief(row[1])[:160], "; ".join(c[:110] for c in conds[:4]) or "always")
+        ctx.ob(R, nb_, "decides like %s" % ob_.path.split("::")[-1], not only_new and not only_old,
+               "the new codec's %s (%s) no longer decides like the established %s: rows only in the copy: %s || rows only in the "
+               "original: %s -- the two codecs then disagree on some (time, reference) pairs, typically only across a 2^32 boundary"
+               % (nb_.path.split("::")[-1], what, ob_.path, " | ".join(brief(r) for r in only_new[:2]), " | ".join(brief(r) for r in only_old[:2])),
+               nb_.where())
+
+
+def _brief(s):
+    if isinstance(s, tuple):
+        if s and s[0] == "call":
+            return "%s(%s)" % (s[1].split("::")[-1], ", ".join(_brief(a) for a in s[2]))
+        if s and s[0] == "bin":
+            return "(%s %s %s)" % (_brief(s[2]), s[1], _brief(s[3]))
+        if s and s[0] == "k":
+            return str(s[1])
+        if s and s[0] == "cast":
+            return _brief(s[1])
+        if s and s[0] == "phi":
+            return "phi"
+        if s and s[0] == "arg":
+            return "arg%s" % s[1]
+        return "(" + " ".join(_brief(x) for x in s) + ")"
+    if isinstance(s, frozenset):
+        return "{..}"
+    return str(s)
